@@ -45,7 +45,10 @@ RULE_ADDED = (
               'Round 11: PINs in which characters repeat. '
               ' '
               'Round 13: onboard cells on an onboarded device that answers the onboard query wi'
-              'th an error status. ')
+              'th an error status. '
+              ' '
+              'Round 14: a quarter of the admin-tool environments export terminal / locale vari'
+              'ables. ')
 RULE = RULE + " " + RULE_ADDED.strip()
 ASSUMPTIONS = [
     "simulated devices (pv/simdev) trusted; operator input is scripted, an exhausted script "
